@@ -7,6 +7,7 @@
 package go9p
 
 import (
+	"errors"
 	"fmt"
 	"io"
 	"log"
@@ -40,8 +41,11 @@ type Ufs struct {
 func toError(err error) *Error {
 	var ecode uint32
 
+	/* the os package wraps the errno in *PathError, *LinkError, ... */
+	var e syscall.Errno
+
 	ename := err.Error()
-	if e, ok := err.(syscall.Errno); ok {
+	if errors.As(err, &e) {
 		ecode = uint32(e)
 	} else {
 		ecode = EIO
